@@ -136,6 +136,18 @@ class SeqV:
         self.kind, self.names, self.n = kind, names, n
 
 
+class RowsV:
+    """the list of rows recorded so far (newest first): Lean expression of type List (Model.Row α)"""
+    def __init__(self, s):
+        self.s = s
+
+
+class RowV:
+    """a TrajectoryData row: Lean expression of type Model.Row α"""
+    def __init__(self, s):
+        self.s = s
+
+
 class StrC:
     def __init__(self, v):
         self.v = v
@@ -178,6 +190,7 @@ class Evaluator:
         self.fuel = 'skipFuel'
         self.lets = []
         self.compose = set()
+        self.compose_rows = False
         for mod in modules.values():
             for n in mod.body:
                 if isinstance(n, ast.ClassDef):
@@ -283,6 +296,10 @@ class Evaluator:
             raise Unsupported('unary op')
         if isinstance(e, ast.BinOp):
             return self.binop(e, env)
+        if isinstance(e, ast.NamedExpr) and isinstance(e.target, ast.Name):
+            v = self.ev(e.value, env)
+            env[e.target.id] = v
+            return v
         if isinstance(e, ast.IfExp):
             c = self.cond(e.test, env)
             a, b = self.ev(e.body, env), self.ev(e.orelse, env)
@@ -386,6 +403,8 @@ class Evaluator:
     def truth(self, v):
         if isinstance(v, Cond):
             return v
+        if isinstance(v, Flg):
+            return Cond('bool', f'!({v.s}).isNone')
         if isinstance(v, Vec):
             return Cond('static', True)     # a NamedTuple of three fields is truthy
         if isinstance(v, NoneV):
@@ -488,6 +507,14 @@ class Evaluator:
             if x == y:
                 return Num(x)
             return Num(f'(if {c.as_if()} then {x} else {y})')
+        if isinstance(a, SymArr) and isinstance(b, SymArr):
+            if a.s == b.s:
+                return a
+            return SymArr(f'(if {c.as_if()} then {a.s} else {b.s})')
+        if isinstance(a, RowsV) and isinstance(b, RowsV):
+            if a.s == b.s:
+                return a
+            return RowsV(f'(if {c.as_if()} then {a.s} else {b.s})')
         if isinstance(a, ReasonV) and isinstance(b, ReasonV):
             if a.s == b.s:
                 return a
@@ -506,6 +533,41 @@ class Evaluator:
                 return a
             return OptV(f'(if {c.as_if()} then {x} else {y})')
         raise Unsupported(f'cannot merge {type(a).__name__} / {type(b).__name__} over a condition')
+
+    def obj_call(self, d, call, env, stmt):
+        """`obj.method(args)` on the recording filter / the wind sock held in a local variable (loop body of `_integrate`): composed
+        with the separately translated method (`filter_*`, `sock_vector_for_range`), bound by `let`; returns the value (or True for a
+        statement), None when `obj` is not such an object"""
+        obj, meth = d.split('.')
+        cls = env.get(obj + '.__class__')
+        if obj == 'self' or cls not in ('_TrajectoryDataFilter', '_WindSock'):
+            return None
+        args = [self.ev(a, env) for a in call.args]
+        at = ' '.join(f'⟨{num(a.x)}, {num(a.y)}, {num(a.z)}⟩' if isinstance(a, Vec) else num(a) for a in args)
+        name = f'o{len(self.lets) + 1}'
+        if cls == '_TrajectoryDataFilter':
+            st = filter_state({('self.' + k[len(obj) + 1:]): v for k, v in env.items() if k.startswith(obj + '.')} | {'self.__class__': cls})
+            def rebind(prefix):   # noqa: E306
+                for py, ln, kind in FILTER_FIELDS:
+                    env[f'{obj}.{py}'] = Flg(f'{prefix}.{ln}') if kind == 'flg' else vec(f'{prefix}.{ln}') if kind == 'vec' else Num(f'{prefix}.{ln}')
+            if meth == 'clear_current_flag' and not args:
+                self.lets.append((name, f'filter_clear_current_flag {st}'))
+                rebind(name)
+                return True
+            if meth == 'should_record' and len(args) == 4:
+                self.lets.append((name, f'filter_should_record {st} {self.fuel} {at}'))
+                rebind(f'{name}.1')
+                return OptV(f'{name}.2')
+            raise Unsupported(f'filter method {meth} in the loop body')
+        # wind sock
+        w = {k[len(obj) + 1:]: v for k, v in env.items() if k.startswith(obj + '.')}
+        st = sock_state({'self.' + k: v for k, v in w.items()}, False).replace('maxDist := ws.maxDist', 'maxDist := l.ws.maxDist')
+        if meth == 'vector_for_range' and len(args) == 1:
+            self.lets.append((name, f'sock_vector_for_range {st} {at}'))
+            env[f'{obj}.winds'], env[f'{obj}.current'] = SymArr(f'{name}.1.winds'), IntSym(f'{name}.1.current')
+            env[f'{obj}.next_range'], env[f'{obj}._last_vector_cache'] = Num(f'{name}.1.nextRange'), vec(f'{name}.1.vec')
+            return vec(f'{name}.2')
+        raise Unsupported(f'wind sock method {meth} in the loop body')
 
     def opt(self, v):
         """Lean text of an optional BaseTrajData"""
@@ -537,6 +599,15 @@ class Evaluator:
             if n in self.MATH2 and len(args) == 2:
                 return Num(f'({self.MATH2[n]} {num(args[0])} {num(args[1])})')
             raise Unsupported(f'math.{n}')
+        if d and d.count('.') == 1 and not kw:
+            r = self.obj_call(d, e, env, stmt=False)
+            if r is not None:
+                return r
+        if d == 'create_trajectory_row' and self.compose_rows and len(args) == 11 and not kw:
+            at = []
+            for a in args:
+                at.append(f'⟨{num(a.x)}, {num(a.y)}, {num(a.z)}⟩' if isinstance(a, Vec) else a.s if isinstance(a, Flg) else num(a))
+            return RowV('(row ' + ' '.join(at) + ')')
         if d in ('abs',) and len(args) == 1:
             return Num(f'(Fn.abs {num(args[0])})')
         if d == 'len' and len(args) == 1 and isinstance(args[0], SymArr):
@@ -571,6 +642,9 @@ class Evaluator:
                 m = self.method(head, tail)
                 if m is not None:
                     return self.apply(m, None, args, kw, env, head)
+            if isinstance(env.get(d), Opaque) and env[d].name.startswith('pair:'):
+                t = '(' + env[d].name[5:] + ''.join(' ' + num(a) for a in args) + ')'
+                return Tup([Num(t + '.1'), Num(t + '.2')])
             if isinstance(env.get(d), Opaque):
                 return Num('(' + env[d].name + ''.join(' ' + num(a) for a in args) + ')')
             # method on self
@@ -688,6 +762,14 @@ class Evaluator:
                     d = self.dotted(s.value.func) or ''
                     if d.startswith('warnings.') or d.startswith('logger.'):
                         continue
+                    if d.endswith('.append') and d.count('.') == 1 and isinstance(env.get(d[:-7]), RowsV) and len(s.value.args) == 1:
+                        rv = self.ev(s.value.args[0], env)
+                        if not isinstance(rv, RowV):
+                            raise Unsupported('something other than a row appended to the rows')
+                        env[d[:-7]] = RowsV(f'({rv.s} :: {env[d[:-7]].s})')
+                        continue
+                    if d.count('.') == 1 and self.obj_call(d, s.value, env, stmt=True):
+                        continue
                     if d.endswith('.append') and d.count('.') == 1 and isinstance(env.get(d[:-7]), Lst) and len(s.value.args) == 1:
                         env[d[:-7]] = Lst(env[d[:-7]].items + [self.ev(s.value.args[0], env)])
                         continue
@@ -738,6 +820,25 @@ class Evaluator:
                     continue
                 fake = ast.BinOp(left=s.target, op=s.op, right=s.value)
                 self.assign(s.target, self.ev(fake, env), env)
+                continue
+            if isinstance(s, ast.If) and not s.orelse and isinstance(s.test, ast.Compare) and len(s.test.ops) == 1 \
+                    and isinstance(s.test.ops[0], ast.IsNot) and isinstance(s.test.left, ast.NamedExpr) \
+                    and isinstance(s.test.comparators[0], ast.Constant) and s.test.comparators[0].value is None:
+                # if (data := f(...)) is not None: <append a row built from data>
+                nm = s.test.left.target.id
+                v = self.ev(s.test.left.value, env)
+                if not isinstance(v, OptV):
+                    raise Unsupported('walrus pattern on a non-optional value')
+                e1 = dict(env)
+                e1[nm] = Obj('BaseTrajData', {'time': Num('d.time'), 'position': vec('d.pos'), 'velocity': vec('d.vel'), 'mach': Num('d.mach')})
+                if self._block(s.body, e1) is not None:
+                    raise Unsupported('return inside the walrus branch')
+                changed = [k for k in e1 if k != nm and e1[k] is not env.get(k)]
+                if len(changed) != 1 or not isinstance(e1[changed[0]], RowsV) or not isinstance(env.get(changed[0]), RowsV):
+                    raise Unsupported(f'the walrus branch changes {changed}')
+                k = changed[0]
+                env[k] = RowsV(f'(match {v.s} with | some d => {e1[k].s} | none => {env[k].s})')
+                env[nm] = v
                 continue
             if isinstance(s, ast.If) and len(s.body) == 1 and isinstance(s.body[0], ast.Raise) and not s.orelse:
                 c = self.cond(s.test, env)
@@ -1482,6 +1583,79 @@ def emit_interp(ev):
     return '\n'.join(out)
 
 
+def emit_loop_body(ev):
+    """the WHOLE body of the `while` loop of `TrajectoryCalc._integrate`, executed symbolically on a symbolic loop state: the calls
+    into the recording filter and the wind sock are composed with their separately translated methods, `create_trajectory_row`
+    with `row`; the limit check contributes its verdict (`limit_reason`) and the row it appends"""
+    f = ev.method('TrajectoryCalc', '_integrate')
+    loop = [n for n in f.body if isinstance(n, ast.While)][0]
+    body = loop.body
+    lim = [i for i, n in enumerate(body) if isinstance(n, ast.If) and '_cMinimumVelocity' in ast.dump(n.test)]
+    if len(lim) != 1 or lim[0] != len(body) - 1:
+        raise Unsupported('the limit check is not the last statement of the loop body')
+    grav = ev.ev(find_self_assign(ev, 'TrajectoryCalc', '__init__', 'gravity_vector'), {'self._config.cGravityConstant': Num('r.cfg.gravity')})
+    env = {'self.__class__': 'TrajectoryCalc', 'self.alt0': Num('r.alt0'), 'self.calc_step': Num('r.cfg.calcStep'), 'self.gravity_vector': grav,
+           'self.drag_by_mach': Opaque('r.env.dbm'), 'self.look_angle': Num('r.proj.lookAngle'), 'self.weight': Num('r.proj.weight'),
+           'self.stability_coefficient': Num('r.proj.stability'), 'self.twist': Num('r.proj.twist'),
+           '_cMinimumVelocity': Num('r.cfg.minVelocity'), '_cMaximumDrop': Num('r.cfg.maxDrop'), '_cMinimumAltitude': Num('r.cfg.minAltitude'),
+           'shot_info.atmo.get_density_factor_and_mach_for_altitude': Opaque('pair:air'),
+           'range_vector': vec('l.s.pos'), 'velocity_vector': vec('l.s.vel'), 'time': Num('l.s.time'), 'drag': Num('l.drag'),
+           'mach': Num('l.mach'), 'density_factor': Num('l.density'), 'velocity': Num('l.speed'), 'last_x': Num('l.lastX'),
+           'wind_vector': vec('l.ws.vec'), 'ranges': RowsV('l.rows'), 'filter_flags': Flg('filterFlags'), 'it': IntSym('it'),
+           'data_filter.__class__': '_TrajectoryDataFilter', 'wind_sock.__class__': '_WindSock',
+           'wind_sock.winds': SymArr('l.ws.winds'), 'wind_sock.current': IntSym('l.ws.current'), 'wind_sock.next_range': Num('l.ws.nextRange'),
+           'wind_sock._last_vector_cache': vec('l.ws.vec'), 'wind_sock._length': IntSym('(l.ws.winds).size')}
+    for py, ln, kind in FILTER_FIELDS:
+        env['data_filter.' + py] = Flg(f'l.flt.{ln}') if kind == 'flg' else vec(f'l.flt.{ln}') if kind == 'vec' else Num(f'l.flt.{ln}')
+    ev.lets, ev.compose_rows = [], True
+    try:
+        # statement by statement; a variable that received a long new value is bound by `let` (same value, smaller terms)
+        for st in body[:-1]:
+            before = dict(env)
+            if ev.block([st], env) is not None:
+                raise Unsupported('return inside the loop body')
+            for k in sorted(env):
+                v = env[k]
+                if v is before.get(k) or k.startswith('data_filter.') or k.startswith('wind_sock.'):
+                    continue
+                if isinstance(v, Num) and len(v.s) > 60:
+                    name = f'v{len(ev.lets) + 1}'
+                    ev.lets.append((name, v.s))
+                    env[k] = Num(name)
+                elif isinstance(v, Vec) and len(num(v.x)) + len(num(v.y)) + len(num(v.z)) > 60:
+                    name = f'v{len(ev.lets) + 1}'
+                    ev.lets.append((name, f'Model.Vec.mk {num(v.x)} {num(v.y)} {num(v.z)}'))
+                    env[k] = vec(name)
+        # the limit check: verdict (tied separately as `limit_reason`) and the appended row
+        iff = body[-1]
+        app = [n for n in iff.body if isinstance(n, ast.Expr) and isinstance(n.value, ast.Call) and ev.dotted(n.value.func) == 'ranges.append']
+        if len(app) != 1 or iff.body.index(app[0]) != 0 or not isinstance(iff.body[-1], ast.Raise):
+            raise Unsupported('the body of the limit check changed shape')
+        want = ast.dump(ast.parse('raise RangeError(reason, ranges)').body[0])
+        if ast.dump(iff.body[-1]) != want:
+            raise Unsupported('the limit check does not raise RangeError(reason, ranges)')
+        lrow = ev.ev(app[0].value.args[0], env)
+        if not isinstance(lrow, RowV):
+            raise Unsupported('the limit check does not append a row')
+        v3 = lambda v: f'⟨{num(v.x)}, {num(v.y)}, {num(v.z)}⟩'   # noqa: E731
+        w = {k[len('wind_sock.'):]: v for k, v in env.items() if k.startswith('wind_sock.')}
+        ws = sock_state({'self.' + k: v for k, v in w.items()}, False).replace('maxDist := ws.maxDist', 'maxDist := l.ws.maxDist')
+        flt = filter_state({('self.' + k[len('data_filter.'):]): v for k, v in env.items() if k.startswith('data_filter.')} | {'self.__class__': 'x'})
+        lets = ''.join(f'let {n} := {t}\n  ' for n, t in ev.lets)
+        y = env['range_vector'].y
+        out = ('/-- the body of the `while` loop of `TrajectoryCalc._integrate`, executed symbolically on the loop state `l` (`air` = the\n'
+               '    atmosphere look-up of the shot, returning the pair) -/\n'
+               'def loop_body (r : Model.Run α) (air : α → α × α) (filterFlags : Model.Flags) (skipFuel : Nat) (l : Model.LoopSt α) : Model.LoopOut α :=\n  '
+               + lets + '{ st := ⟨' + v3(env['range_vector']) + ', ' + v3(env['velocity_vector']) + ', ' + num(env['time']) + '⟩,\n    ws := ' + ws
+               + ',\n    flt := ' + flt + ',\n    rows := ' + env['ranges'].s + ',\n    drag := ' + num(env['drag']) + ', mach := ' + num(env['mach'])
+               + ', density := ' + num(env['density_factor']) + ', speed := ' + num(env['velocity']) + ', lastX := ' + num(env['last_x'])
+               + ',\n    reason := limit_reason r.cfg.minVelocity r.cfg.maxDrop r.cfg.minAltitude r.alt0 ' + num(env['velocity']) + ' ' + num(y)
+               + ',\n    limitRow := ' + lrow.s + ' }\n')
+    finally:
+        ev.lets, ev.compose_rows = [], False
+    return out
+
+
 def find_self_assign(ev, cls, meth, attr):
     m = ev.method(cls, meth)
     for n in ast.walk(m) if m else []:
@@ -1565,6 +1739,7 @@ def generate(repo: Path) -> str:
            'curve_value'], lambda: emit_curve(ev))
     group(['zero_start', 'zero_distance', 'zero_initial_error', 'zero_initial_count', 'zero_cond', 'zero_error', 'zero_missed',
            'zero_correct', 'zero_fails', 'zero_result'], lambda: emit_zero(ev))
+    group(['loop_body'], lambda: emit_loop_body(ev))
     group(['danger_half', 'danger_begin_danger_hit', 'danger_end_danger_hit'], lambda: emit_danger(ev))
     group(['interp_low', 'interp_low_value', 'interp_high', 'interp_high_value', 'interp_init', 'interp_cond', 'interp_in_segment',
            'interp_value', 'interp_goes_left', 'interp_left_move', 'interp_right_move', 'bcpoint_mach_of_v'], lambda: emit_interp(ev))
